@@ -28,7 +28,33 @@ func idiomProjects() []*sweepCase {
 	mk := func(config, schema string) *sweepCase {
 		return &sweepCase{Config: config, Schema: map[string]string{"schema.graphqls": schema}}
 	}
+	// "no models": every type has a hand-written Go model, in two packages - one found through autobind, one named in
+	// the type map - with the Go interface of a GraphQL interface in one and an implementor in the other
+	handWritten := &sweepCase{Config: `schema:
+  - "*.graphqls"
+exec:
+  filename: graph/generated.go
+  package: graph
+model:
+  filename: graph/models_gen.go
+  package: graph
+resolver:
+  layout: follow-schema
+  dir: graph
+  package: graph
+autobind:
+  - c17proj/shapes
+models:
+  Circle:
+    model: c17proj/geo.Circle
+omit_root_models: true
+`, Schema: map[string]string{
+		"schema.graphqls":  "interface Shape { id: ID! owner: Owner! }\ntype Owner { name: String! }\ntype Square implements Shape { id: ID! owner: Owner! side: Float! }\ntype Circle implements Shape { id: ID! owner: Owner! radius: Float! }\ntype Query { shapes: [Shape!]! }\n",
+		"shapes/shapes.go": "package shapes\n\ntype Owner struct{ Name string }\n\ntype Shape interface {\n\tIsShape()\n\tGetID() string\n\tGetOwner() *Owner\n}\n\ntype Square struct {\n\tID    string\n\tOwner *Owner\n\tSide  float64\n}\n\nfunc (Square) IsShape()           {}\nfunc (s Square) GetID() string    { return s.ID }\nfunc (s Square) GetOwner() *Owner { return s.Owner }\n",
+		"geo/geo.go":       "package geo\n\nimport \"c17proj/shapes\"\n\ntype Circle struct {\n\tID     string\n\tOwner  *shapes.Owner\n\tRadius float64\n}\n\nfunc (Circle) IsShape()                  {}\nfunc (c Circle) GetID() string           { return c.ID }\nfunc (c Circle) GetOwner() *shapes.Owner { return c.Owner }\n\nvar _ shapes.Shape = Circle{}\n",
+	}}
 	return []*sweepCase{
+		handWritten,
 		// getting started, plus a type only a root field returns
 		mk(defaultConfig, `type Todo { id: ID! text: String! done: Boolean! user: User! }
 type User { id: ID! name: String! }
